@@ -1,2 +1,209 @@
-(* Proofs/SmtextProofsC.v *)
+(* Proofs/SmtextProofsC.v — ReadNCBI rejects corrupted tables; it never panics. *)
 From Bio Require Import Base.
+From Bio.Model Require Import Smtext.
+From Bio.Spec Require Import SmtextSpec.
+From Bio.Proofs Require Import SmtextProofs SmtextProofsB.
+
+Lemma fold_err : forall o l, fold_left (read_step o) l Err = Err.
+Proof. intros o l; induction l; cbn [fold_left]; auto. Qed.
+
+Lemma not_short_too_long : forall l, ~ short l -> too_long l = true.
+Proof. intros l H. unfold too_long, short in *. apply N.leb_le. lia. Qed.
+
+Lemma too_long_cases : forall l, too_long l = true \/ short l.
+Proof.
+  intros l. unfold too_long, short. destruct (65536 <=? N.of_nat (length l)) eqn:E.
+  - left; reflexivity.
+  - right. apply N.leb_gt. exact E.
+Qed.
+
+Lemma read_step_too_long : forall o s l, too_long l = true ->
+  read_step o (Ok s) (line_item l) = Err.
+Proof. intros o s l H. unfold line_item. rewrite H. reflexivity. Qed.
+
+(* ---- a bad row ---------------------------------------------------------------------- *)
+Lemma set_row_bad : forall o c vs chars m v,
+  In v vs -> parseF o v = None -> length vs = length chars ->
+  set_row o c chars vs m = Err.
+Proof.
+  intros o c vs; induction vs as [|v0 vs IH]; intros chars m v HI HP HL.
+  - destruct HI.
+  - destruct chars as [|d ds]; [discriminate|].
+    simpl set_row. destruct (parseF o v0) as [x|] eqn:E; [|reflexivity].
+    destruct HI as [->|HI]; [congruence|].
+    eapply IH; eauto.
+Qed.
+
+Lemma extract_bad : forall f, length f <> 1%nat -> extract_single_char f = Err.
+Proof. intros [|a [|b t]] H; try reflexivity. exfalso; apply H; reflexivity. Qed.
+
+Lemma read_row_bad : forall o chars fs m,
+  BadFields o (length chars) fs -> read_row o chars fs m = Err.
+Proof.
+  intros o chars fs m H. unfold read_row.
+  destruct (Nat.eqb (length fs) (S (length chars))) eqn:E; [|reflexivity].
+  apply Nat.eqb_eq in E. cbn [negb].
+  destruct H as [H|[[f0 [vs [-> H]]]|[f0 [vs [v [-> [HI HP]]]]]]].
+  - contradiction.
+  - rewrite extract_bad by assumption. reflexivity.
+  - destruct (extract_single_char f0) as [c| |] eqn:X; cbn [obind]; try reflexivity.
+    + eapply set_row_bad; eauto.
+    + destruct f0 as [|a [|b t]]; cbn in X; try discriminate.
+      destruct (a =? 42); discriminate.
+Qed.
+
+Lemma read_step_bad_row : forall o n l m chars,
+  BadRowLine o n l -> chars <> [] -> length chars = n ->
+  read_step o (Ok (m, chars)) (line_item l) = Err.
+Proof.
+  intros o n l m chars [_ H] Hne Hlen.
+  destruct (too_long_cases l) as [TL|Hs].
+  - apply read_step_too_long; exact TL.
+  - destruct H as [H|[HN HB]]; [contradiction|].
+    rewrite read_step_line by assumption. cbn [snd fst].
+    destruct chars as [|c0 chars']; [contradiction|].
+    subst n. rewrite read_row_bad by assumption. reflexivity.
+Qed.
+
+(* ---- a bad header --------------------------------------------------------------------- *)
+Lemma header_chars_bad : forall fs f,
+  In f fs -> length f <> 1%nat -> header_chars fs = Err.
+Proof.
+  induction fs as [|f0 fs IH]; intros f HI HL.
+  - destruct HI.
+  - cbn [header_chars]. destruct HI as [->|HI].
+    + rewrite extract_bad by assumption. reflexivity.
+    + destruct (extract_single_char f0) as [c| |] eqn:X; cbn [obind]; try reflexivity.
+      * rewrite (IH f HI HL). reflexivity.
+      * destruct f0 as [|a [|b t]]; cbn in X; try discriminate.
+        destruct (a =? 42); discriminate.
+Qed.
+
+Lemma read_step_bad_header : forall o l m,
+  BadHeaderLine l -> read_step o (Ok (m, [])) (line_item l) = Err.
+Proof.
+  intros o l m [_ H].
+  destruct (too_long_cases l) as [TL|Hs].
+  - apply read_step_too_long; exact TL.
+  - destruct H as [H|[HN [f [HI HL]]]]; [contradiction|].
+    rewrite read_step_line by assumption. cbn [snd fst].
+    rewrite (header_chars_bad _ f HI HL). reflexivity.
+Qed.
+
+(* ---- the theorems ------------------------------------------------------------------------ *)
+Lemma finish_err : forall t, finish t Err = Err.
+Proof. reflexivity. Qed.
+
+Theorem read_ncbi_rejects_row : forall o T pre hdr body bad rest nl t,
+  rect T ->
+  Forall PreLine pre -> HeaderLine (t_cols T) hdr -> Body o (t_rows T) body ->
+  BadRowLine o (length (t_cols T)) bad -> Forall nolf rest ->
+  read_ncbi o (join_lines (pre ++ hdr :: body ++ bad :: rest) nl) t = Err.
+Proof.
+  intros o T pre hdr body bad rest nl t Hr Hpre Hh Hb Hbad Hrest.
+  assert (E : pre ++ hdr :: body ++ bad :: rest = (pre ++ hdr :: body) ++ bad :: rest).
+  { rewrite <- app_assoc. reflexivity. }
+  rewrite E. rewrite read_join_lines.
+  - rewrite map_app, fold_left_app.
+    rewrite (read_layout_lines o T) by assumption.
+    cbn [map fold_left].
+    rewrite (read_step_bad_row o (length (t_cols T))).
+    + rewrite fold_err. reflexivity.
+    + exact Hbad.
+    + destruct Hh as [Hne _]. destruct (t_cols T); [contradiction | discriminate].
+    + apply map_length.
+  - destruct pre; discriminate.
+  - apply Forall_app. split.
+    + eapply layout_lines_nolf; eassumption.
+    + constructor; [destruct Hbad; assumption | exact Hrest].
+Qed.
+
+Theorem read_ncbi_rejects_header : forall o pre bad rest nl t,
+  Forall PreLine pre -> BadHeaderLine bad -> Forall nolf rest ->
+  read_ncbi o (join_lines (pre ++ bad :: rest) nl) t = Err.
+Proof.
+  intros o pre bad rest nl t Hpre Hbad Hrest.
+  rewrite read_join_lines.
+  - rewrite map_app, fold_left_app. rewrite read_pre by assumption.
+    cbn [map fold_left]. rewrite read_step_bad_header by assumption.
+    rewrite fold_err. reflexivity.
+  - destruct pre; discriminate.
+  - apply Forall_app. split.
+    + eapply Forall_impl; [|exact Hpre]. apply preline_nolf.
+    + constructor; [destruct Hbad; assumption | exact Hrest].
+Qed.
+
+(* ---- no panic, and no matrix after a read fault --------------------------------------------- *)
+Lemma extract_no_panic : forall f, extract_single_char f <> Panic.
+Proof.
+  intros [|a [|b t]]; cbn; try discriminate. destruct (a =? 42); discriminate.
+Qed.
+
+Lemma set_row_no_panic : forall o c vs chars m,
+  (length vs <= length chars)%nat -> set_row o c chars vs m <> Panic.
+Proof.
+  intros o c vs; induction vs as [|v vs IH]; intros chars m HL.
+  - destruct chars; simpl set_row; discriminate.
+  - destruct chars as [|d ds]; [cbn in HL; lia|].
+    simpl set_row. destruct (parseF o v); [|discriminate].
+    apply IH. cbn in HL. lia.
+Qed.
+
+Lemma header_chars_no_panic : forall fs, header_chars fs <> Panic.
+Proof.
+  induction fs as [|f fs IH]; cbn [header_chars]; [discriminate|].
+  pose proof (extract_no_panic f) as X.
+  destruct (extract_single_char f); cbn [obind]; try discriminate; [|contradiction].
+  destruct (header_chars fs); cbn [obind]; try discriminate. contradiction.
+Qed.
+
+Lemma read_row_no_panic : forall o chars fs m, read_row o chars fs m <> Panic.
+Proof.
+  intros o chars fs m. unfold read_row.
+  destruct (Nat.eqb (length fs) (S (length chars))) eqn:E; cbn [negb]; [|discriminate].
+  apply Nat.eqb_eq in E. destruct fs as [|f0 vs]; [discriminate|].
+  pose proof (extract_no_panic f0) as X.
+  destruct (extract_single_char f0); cbn [obind]; try discriminate; [|contradiction].
+  apply set_row_no_panic. cbn in E. lia.
+Qed.
+
+Lemma read_line_no_panic : forall o l s, read_line o l s <> Panic.
+Proof.
+  intros o l s. unfold read_line. destruct (skip_line l); [discriminate|].
+  destruct (snd s) as [|c cs].
+  - pose proof (header_chars_no_panic (fields l)) as X.
+    destruct (header_chars (fields l)); cbn [obind]; try discriminate. contradiction.
+  - pose proof (read_row_no_panic o (c :: cs) (fields l) (fst s)) as X.
+    destruct (read_row o (c :: cs) (fields l) (fst s)); cbn [obind]; try discriminate.
+    contradiction.
+Qed.
+
+Lemma read_step_no_panic : forall o acc it, acc <> Panic -> read_step o acc it <> Panic.
+Proof.
+  intros o acc it H. unfold read_step. destruct acc as [s| |]; cbn [obind];
+    try discriminate; [|contradiction].
+  destruct it; [apply read_line_no_panic | discriminate].
+Qed.
+
+Lemma fold_no_panic : forall o l acc, acc <> Panic -> fold_left (read_step o) l acc <> Panic.
+Proof.
+  intros o l; induction l as [|it l IH]; intros acc H; cbn [fold_left]; auto.
+  apply IH. apply read_step_no_panic; exact H.
+Qed.
+
+Theorem read_ncbi_total : forall o s t, read_ncbi o s t <> Panic.
+Proof.
+  intros o s t. unfold read_ncbi.
+  pose proof (fold_no_panic o (line_items s) (Ok ([], []))) as X.
+  destruct (fold_left (read_step o) (line_items s) (Ok ([], []))) as [[m cs]| |].
+  - destruct t; discriminate.
+  - discriminate.
+  - exfalso. apply X; [discriminate | reflexivity].
+Qed.
+
+Theorem read_ncbi_fault_any : forall o s, read_ncbi o s TErr = Err.
+Proof.
+  intros o s. pose proof (read_ncbi_total o s TErr) as X. unfold read_ncbi in *.
+  destruct (fold_left (read_step o) (line_items s) (Ok ([], []))) as [[m cs]| |];
+    try reflexivity. contradiction.
+Qed.
